@@ -185,69 +185,7 @@ func checkC16(c *Ctx, r *Report) {
 				return l == "holder.attributes" || l == "holder.nonAttributeComments"
 			}
 		}, "append(holder.attributes|holder.nonAttributeComments)", nil, true, "every comment line is kept: as an attribute or as free text (only a parse error leaves the loop)")
-	if fi := need(c, r, "C16.c", nah); fi != nil {
-		// attributes appended only under isAnAttribute, free text only under !isAnAttribute; the free text is the line's own text
-		viol := ""
-		var sites []string
-		// (decided on dominating branch facts: `if is {a} else {b}`, `if is {a; continue}; b` and
-		// `if !is {b; continue}; a` are the same dispatch)
-		isAttr := func(v ssa.Value) bool {
-			ex, ok := stripTrivial(v).(*ssa.Extract)
-			if !ok || ex.Index != 1 {
-				return false
-			}
-			cl, ok := ex.Tuple.(*ssa.Call)
-			return ok && calleeName(cl) == pkgAnn+".parseCommentNode"
-		}
-		counts := map[string]int{}
-		allInstrs(fi.SSA, true, func(_ *ssa.Function, _ *ssa.BasicBlock, _ int, ins ssa.Instruction) {
-			st, ok := ins.(*ssa.Store)
-			if !ok {
-				return
-			}
-			fa, ok := st.Addr.(*ssa.FieldAddr)
-			if !ok {
-				return
-			}
-			fv := structFieldVar(fa.X.Type(), fa.Field)
-			if fv == nil || (fv.Name() != "attributes" && fv.Name() != "nonAttributeComments") {
-				return
-			}
-			if cl, ok := stripTrivial(st.Val).(*ssa.Call); !ok || calleeName(cl) != "builtin.append" {
-				return // the initialisation of the holder
-			}
-			counts[fv.Name()]++
-			sites = append(sites, w.pos(st.Pos()))
-			want := fv.Name() == "attributes"
-			guarded := false
-			for _, f := range guardsOf(st) {
-				cnd, pol := unwrapNot(f.Cond, f.Pol)
-				if isAttr(cnd) && pol == want {
-					guarded = true
-				}
-			}
-			if !guarded {
-				if want {
-					viol = fmt.Sprintf("%s: a line is appended to the attributes although parseCommentNode did not say it is one", w.pos(st.Pos()))
-				} else {
-					viol = fmt.Sprintf("%s: a line is appended to the free text although parseCommentNode said it is an attribute (or without asking)", w.pos(st.Pos()))
-				}
-			}
-		})
-		if counts["attributes"] != 1 || counts["nonAttributeComments"] != 1 {
-			viol = fmt.Sprintf("expected one append to each of holder.attributes and holder.nonAttributeComments in NewAnnotationHolder, found %v", counts)
-		}
-		nac := w.lookupType(pkgAnn, "NonAttributeComment")
-		for _, f := range []struct{ field, must string }{{"Value", "gast.CommentNode.Text"}, {"Index", "gast.CommentNode.Index"}} {
-			for _, sk := range w.fieldSinks(fi, nac, f.field) {
-				sites = append(sites, w.pos(sk.Pos))
-				if a := w.exprAtoms(fi, sk.Expr); !a.Fields[f.must] {
-					viol = fmt.Sprintf("%s: NonAttributeComment.%s is not the line's own %s", w.pos(sk.Pos), f.field, f.must)
-				}
-			}
-		}
-		r.add("C16.c", "fieldflow", nah+":dispatch", "attributes and free text go to their own list, built from the line itself", []string{nah}, sites, viol)
-	}
+	checkHolderDispatch(c, r, "C16.c")
 	{
 		// order: no sort / map iteration in the functions between the doc list and Attributes()
 		viol := ""
@@ -596,5 +534,76 @@ func checkAnnotationRegex(c *Ctx, r *Report, clause string) {
 			v2 = "expected one FindStringSubmatchIndex call"
 		}
 		r.add(clause, "fieldflow", pcn+":matched-text", "the grammar is applied to the comment line itself", []string{pcn}, s2, v2)
+	}
+}
+
+// checkHolderDispatch: a comment line becomes an attribute only if parseCommentNode says it is one,
+// free text otherwise; each line is appended once (shared with C01.d: deprecation, hiding, tags and
+// routes of an operation are what its annotations say - not what its prose resembles).
+func checkHolderDispatch(c *Ctx, r *Report, clause string) {
+	w := c.W
+	nah := pkgAnn + ".NewAnnotationHolder"
+	if fi := need(c, r, clause, nah); fi != nil {
+		// attributes appended only under isAnAttribute, free text only under !isAnAttribute; the free text is the line's own text
+		viol := ""
+		var sites []string
+		// (decided on dominating branch facts: `if is {a} else {b}`, `if is {a; continue}; b` and
+		// `if !is {b; continue}; a` are the same dispatch)
+		isAttr := func(v ssa.Value) bool {
+			ex, ok := stripTrivial(v).(*ssa.Extract)
+			if !ok || ex.Index != 1 {
+				return false
+			}
+			cl, ok := ex.Tuple.(*ssa.Call)
+			return ok && calleeName(cl) == pkgAnn+".parseCommentNode"
+		}
+		counts := map[string]int{}
+		allInstrs(fi.SSA, true, func(_ *ssa.Function, _ *ssa.BasicBlock, _ int, ins ssa.Instruction) {
+			st, ok := ins.(*ssa.Store)
+			if !ok {
+				return
+			}
+			fa, ok := st.Addr.(*ssa.FieldAddr)
+			if !ok {
+				return
+			}
+			fv := structFieldVar(fa.X.Type(), fa.Field)
+			if fv == nil || (fv.Name() != "attributes" && fv.Name() != "nonAttributeComments") {
+				return
+			}
+			if cl, ok := stripTrivial(st.Val).(*ssa.Call); !ok || calleeName(cl) != "builtin.append" {
+				return // the initialisation of the holder
+			}
+			counts[fv.Name()]++
+			sites = append(sites, w.pos(st.Pos()))
+			want := fv.Name() == "attributes"
+			guarded := false
+			for _, f := range guardsOf(st) {
+				cnd, pol := unwrapNot(f.Cond, f.Pol)
+				if isAttr(cnd) && pol == want {
+					guarded = true
+				}
+			}
+			if !guarded {
+				if want {
+					viol = fmt.Sprintf("%s: a line is appended to the attributes although parseCommentNode did not say it is one", w.pos(st.Pos()))
+				} else {
+					viol = fmt.Sprintf("%s: a line is appended to the free text although parseCommentNode said it is an attribute (or without asking)", w.pos(st.Pos()))
+				}
+			}
+		})
+		if counts["attributes"] != 1 || counts["nonAttributeComments"] != 1 {
+			viol = fmt.Sprintf("expected one append to each of holder.attributes and holder.nonAttributeComments in NewAnnotationHolder, found %v", counts)
+		}
+		nac := w.lookupType(pkgAnn, "NonAttributeComment")
+		for _, f := range []struct{ field, must string }{{"Value", "gast.CommentNode.Text"}, {"Index", "gast.CommentNode.Index"}} {
+			for _, sk := range w.fieldSinks(fi, nac, f.field) {
+				sites = append(sites, w.pos(sk.Pos))
+				if a := w.exprAtoms(fi, sk.Expr); !a.Fields[f.must] {
+					viol = fmt.Sprintf("%s: NonAttributeComment.%s is not the line's own %s", w.pos(sk.Pos), f.field, f.must)
+				}
+			}
+		}
+		r.add(clause, "fieldflow", nah+":dispatch", "attributes and free text go to their own list, built from the line itself", []string{nah}, sites, viol)
 	}
 }
